@@ -21,7 +21,8 @@ RULE = ('histories on one established DBusClientConnection (in-memory transport,
         'by the documented convention / RemoteError(name, message, values) / TimeOut / the loss reason of the first '
         'applicable event for that serial; pending-call table and virtual-clock timers equal the still-pending calls. '
         'Non-trivial = >=2 calls outstanding at once and an out-of-order, duplicate or unsolicited reply or a deadline '
-        'race; distinct = distinct history JSON.')
+        'race; distinct = distinct history JSON. The scripted peer writes replies in four spellings (canonical; unknown header field '
+        'first; descending field order with an unknown field in the middle; unknown variant-typed field plus flag bit 0x4).')
 ASSUMPTIONS = ['timeout=0 / 0.0 / None all mean "no deadline" (what callRemote documents and does); all three spellings are generated',
                'user callbacks attached by the harness do not raise or re-enter']
 
@@ -162,7 +163,7 @@ def run_history(case):
                     sig, trees = {'str': ('s', ['msg%d' % token[0]]), 'none': ('', []),
                                   'int': ('i', [token[0]]), 'str+': ('su', ['m%d' % token[0], 9]),
                                   'empty-str': ('s', [''])}[bk]
-                    raw = R.encode_message(3, 1000 + token[0], {4: name, 5: serial}, sig, trees)
+                    raw = R.encode_variant(token[0] + serial, 3, 1000 + token[0], {4: name, 5: serial}, sig, trees)
                     outcome = ('remote', name, trees[0] if (trees and isinstance(trees[0], str)) else '',
                                S.normal_forms(sig, trees) if sig else [])
                 else:
@@ -170,7 +171,7 @@ def run_history(case):
                     sig, trees = p['sig'], p['trees']
                     if p.get('token'):
                         sig, trees = 'u' + sig if len(sig) < 250 else 'u', [token[0]] + (trees if len(sig) < 250 else [])
-                    raw = R.encode_message(2, 1000 + token[0], {5: serial}, sig, trees, little=p.get('little', True))
+                    raw = R.encode_variant(token[0] + serial, 2, 1000 + token[0], {5: serial}, sig, trees, little=p.get('little', True))
                     outcome = None
                 if kind == 'reply2':
                     if rig2 is None:
